@@ -174,7 +174,7 @@ def _unpack_filter(
             "Unbalanced starting '(' without a closing ')'",
             filter=filter,
             offset=offset + (parens_start or 0),
-            length=length - (offset + (parens_start or 0)),
+            length=length - (parens_start or 0),
         )
 
     if parsed_filter is None:
